@@ -19,11 +19,11 @@ META = {
     "for every (entries, alloc_ways, free_ways, init) and every call history that only frees allocated identifiers; "
     "the model (with the real encoder tree inside) is tied to the code by cycle-exact comparison of done bits, "
     "returned identifiers, peeked masks and alloc ready bits over entries 1..9,16,17 x alloc_ways 1..entries+1 x "
-    "free_ways 0..3 x three init masks, random/directed histories, a malformed stream (double frees, out-of-range "
+    "free_ways 0..3 x init masks (-1, 0, non-negative, negative two's-complement), random/directed histories, a malformed stream (double frees, out-of-range "
     "identifiers), thorough: every single step from every mask on small configurations",
     "level_note": "trusted: Lean kernel, axioms propext/Quot.sound/Classical.choice; Amaranth semantics and pysim; "
-    "the harness glue. replace and clear conflict (clear calls replace) with no declared priority: simultaneous "
-    "attempts are excluded from the property and never generated. alloc_ways=0 raises IndexError in the encoder "
+    "the harness glue. replace and clear conflict (clear calls replace) with no declared priority: the winner of "
+    "simultaneous attempts is read off the elaborated design (cfg cf=), the monitor demands that exactly one executes. alloc_ways=0 raises IndexError in the encoder "
     "constructor path and is outside the configuration space.",
 }
 
@@ -37,6 +37,20 @@ def _sim(n: int, aw: int, fw: int, init: int) -> CompSim:
 
         _sims[k] = CompSim(lambda: PriorityEncoderAllocator(n, aw, fw, init=init))
     return _sims[k]
+
+
+_cf: dict[tuple, int] = {}
+
+
+def _clear_first(n: int, aw: int, fw: int, init: int) -> int:
+    """Which of the conflicting transactions (adapter of replace / clear, whose body calls the exclusive
+    replace) has priority in the elaborated design: read off the real circuit.  1 = clear.  If both
+    execute the answer is arbitrary; the monitor reports that."""
+    k = (n, aw, fw, init)
+    if k not in _cf:
+        tr = _sim(*k).run([{"replace": 0, "clear": 0}])
+        _cf[k] = 1 if (tr[0][("clear",)] is not None and tr[0][("replace",)] is None) else 0
+    return _cf[k]
 
 
 def _kv(line: str) -> dict:
@@ -79,7 +93,7 @@ def impl(case: Case) -> list[str]:
 def monitor(case: Case, out: list[str]):
     """The property sentence on the implementation's observations (reference: the set of free identifiers).
     Returns None as soon as the history leaves the environment hypotheses: a free of an identifier that is
-    not allocated (or twice in one cycle), or replace and clear attempted together (winner unspecified)."""
+    not allocated (or twice in one cycle).  replace and clear attempted together: exactly one may execute."""
     d = case.desc
     n, aw, fw = d["n"], d["aw"], d["fw"]
     initm = d["init"] & ((1 << n) - 1)
@@ -89,8 +103,9 @@ def monitor(case: Case, out: list[str]):
         f = _kv("x " + o)
         att = [ch == "1" for ch in i["a"]]
         fr = _flist(i["f"])
-        if i["r"] != "-" and i["c"] == "1":
-            return None
+        both = i["r"] != "-" and i["c"] == "1"
+        if both and f["r"] == "1" and f["c"] == "1":
+            return f"cycle {k}: replace and clear both executed in one cycle (clear calls the exclusive method replace)"
         ids = [x for x in fr if x is not None]
         if any(x >= n or x in free for x in ids) or len(set(ids)) != len(ids):
             return None  # environment frees something that is not allocated
@@ -116,13 +131,17 @@ def monitor(case: Case, out: list[str]):
             return f"cycle {k}: identifiers returned in one cycle are not distinct: {ret}"
         if f["f"] != "".join("1" if x is not None else "0" for x in fr):
             return f"cycle {k}: free ways attempted {fr} executed {f['f']}"
-        if (f["r"] == "1") != (i["r"] != "-") or (f["c"] == "1") != (i["c"] == "1"):
+        if both:
+            okrc = (f["r"] == "1") != (f["c"] == "1")  # exactly one of the two conflicting calls is granted
+        else:
+            okrc = (f["r"] == "1") == (i["r"] != "-") and (f["c"] == "1") == (i["c"] == "1")
+        if not okrc:
             return f"cycle {k}: replace/clear attempted r={i['r']} c={i['c']}, executed r={f['r']} c={f['c']}"
-        # replace / clear set the mask, otherwise returned ids become allocated and freed ones free
-        if i["r"] != "-":
+        # replace / clear (whichever executed) set the mask, otherwise returned ids become allocated and freed ones free
+        if f["r"] == "1":
             m = int(i["r"])
             free = {x for x in range(n) if (m >> x) & 1}
-        elif i["c"] == "1":
+        elif f["c"] == "1":
             free = {x for x in range(n) if (initm >> x) & 1}
         else:
             free = (free - set(ret)) | set(ids)
@@ -145,7 +164,7 @@ def _corpus() -> list[Case]:
 
 def _mk(n, aw, fw, init, ops, tag) -> Case:
     """ops: (attempt bits list, free list, peek, replace or None, clear)"""
-    cfg = f"cfg n={n} aw={aw} fw={fw} init={init & ((1 << n) - 1)}"
+    cfg = f"cfg n={n} aw={aw} fw={fw} init={init & ((1 << n) - 1)} cf={_clear_first(n, aw, fw, init)}"
     lines = []
     for a, f, p, r, c in ops:
         fs = ",".join("-" if x is None else str(x) for x in f)
@@ -153,10 +172,15 @@ def _mk(n, aw, fw, init, ops, tag) -> Case:
     return Case(cfg, lines, {"component": "PriorityEncoderAllocator", "n": n, "aw": aw, "fw": fw, "init": init}, tag)
 
 
-def _ref_step(n, initm, free: set, a, f, r, c) -> set:
+def _ref_step(n, initm, free: set, a, f, r, c, cf=0) -> set:
     """reference used by the generators only: lowest free identifiers first (to know what is allocated)"""
     order = sorted(free)
     ret = {order[w] for w in range(len(a)) if a[w] and w < len(order)}
+    if r is not None and c:  # conflicting attempts: the design's priority decides
+        if cf:
+            r = None
+        else:
+            c = False
     if r is not None:
         return {x for x in range(n) if (r >> x) & 1}
     if c:
@@ -166,6 +190,7 @@ def _ref_step(n, initm, free: set, a, f, r, c) -> set:
 
 def _valid_stream(rng, n, aw, fw, init, length, pa, pf, pr, pc, pp=0.9):
     initm = init & ((1 << n) - 1)
+    cf = _clear_first(n, aw, fw, init)
     free = {k for k in range(n) if (initm >> k) & 1}
     ops = []
     for _ in range(length):
@@ -176,9 +201,9 @@ def _valid_stream(rng, n, aw, fw, init, length, pa, pf, pr, pc, pp=0.9):
         for _ in range(fw):
             f.append(used.pop() if used and rng.random() < pf else None)
         r = rng.randrange(1 << n) if rng.random() < pr else None
-        c = r is None and rng.random() < pc
+        c = rng.random() < (pc if r is None else 0.3)  # with a replace: 30% also clear (conflict, one is granted)
         ops.append((a, f, rng.random() < pp, r, c))
-        free = _ref_step(n, initm, free, a, f, r, c)
+        free = _ref_step(n, initm, free, a, f, r, c, cf)
     return ops
 
 
@@ -192,7 +217,7 @@ def _directed(n, aw, fw, init):
     def push(a, f, r=None, c=False):
         nonlocal free
         ops.append((a, f, True, r, c))
-        free = _ref_step(n, initm, free, a, f, r, c)
+        free = _ref_step(n, initm, free, a, f, r, c, _clear_first(n, aw, fw, init))
 
     none_f = [None] * fw
     for _ in range(n // max(aw, 1) + 3):
@@ -212,6 +237,11 @@ def _directed(n, aw, fw, init):
     push([True] * aw, none_f)
     used = sorted(set(range(n)) - free)
     push([True] * aw, [used[j] if j < len(used) else None for j in range(fw)])
+    push([True] * aw, none_f, r=alt, c=True)  # replace and clear together: exactly one is granted
+    push([True] * aw, none_f)
+    used = sorted(set(range(n)) - free)
+    push([False] * aw, [used[j] if j < len(used) else None for j in range(fw)], r=0, c=True)
+    push([True] * aw, none_f)
     push([False] * aw, none_f, c=True)
     push([False] * aw, none_f)
     return ops
@@ -237,6 +267,9 @@ def _configs(ctx: Check, rng):
                 cfgs = [(2, 2, rng.randrange(full + 1)), (16, 1, -1)]
             if n == 17:
                 cfgs = [(1, 1, -1), (3, 2, rng.randrange(full + 1)), (6, 0, -1)]
+            # negative masks other than -1 (two's complement: "everything except ..."), e.g. ~0b101, -1 << k
+            neg = ~rng.randrange(full + 1) if n % 2 else (-1 << rng.randint(1, n))
+            cfgs.append((rng.randint(1, min(n, 3)), 1, neg))
             for aw, fw, init in cfgs:
                 if (n, aw, fw, init) not in out:
                     out.append((n, aw, fw, init))
@@ -247,7 +280,7 @@ def _configs(ctx: Check, rng):
         if n <= 12:
             ways |= {(n + 1, 0), (n, 2), (n, n), (max(1, n - 1), 3)}
         for aw, fw in sorted(ways):
-            for init in (-1, rng.randrange(full + 1)) + ((0,) if (aw, fw) == (2, 2) else ()):
+            for init in (-1, rng.randrange(full + 1), ~rng.randrange(full + 1), -1 << rng.randint(1, n)) + ((0,) if (aw, fw) == (2, 2) else ()):
                 out.append((n, aw, fw, init))
     return out
 
@@ -255,7 +288,7 @@ def _configs(ctx: Check, rng):
 def gen_cases(ctx: Check):
     rng = ctx.rng("gen")
     valid, malformed = [], []
-    length = ctx.pick(100, 150)
+    length = ctx.pick(80, 150)
     for n, aw, fw, init in _configs(ctx, rng):
         valid.append(_mk(n, aw, fw, init, _directed(n, aw, fw, init), "directed"))
         regimes = [(0.9, 0.3, 0.01, 0.01), (0.3, 0.9, 0.02, 0.01), (0.7, 0.7, 0.03, 0.03), (1.0, 1.0, 0.0, 0.0)]
@@ -273,7 +306,7 @@ def gen_cases(ctx: Check):
                     [rng.randrange(1 << w) if rng.random() < 0.6 else None for _ in range(fw)],
                     True,
                     r,
-                    r is None and rng.random() < 0.03,
+                    rng.random() < (0.03 if r is None else 0.3),
                 )
             )
         malformed.append(_mk(n, aw, fw, init, ops, "malformed"))
@@ -293,8 +326,6 @@ def exhaustive_cases(ctx: Check):
                 for f in itertools.product(fvals, repeat=fw):
                     for r in rvals:
                         for c in (False, True):
-                            if r is not None and c:
-                                continue
                             ops = [([False] * aw, [None] * fw, True, m, False), (list(a), list(f), True, r, c), ([False] * aw, [None] * fw, True, None, False)]
                             cases.append(_mk(n, aw, fw, -1, ops, "exhaustive-step"))
     return cases
@@ -335,8 +366,9 @@ def run(ctx: Check):
         cases = exhaustive_cases(ctx)
         lockstep(ctx, "pe-allocator-single-step", "C25", cases, impl, monitor, more_cases, lambda c, o: True, procs=1)
         ctx.note("thorough: all single steps from all masks for 7 small configurations (entered via replace, observed via peek)")
-    ctx.note("replace+clear in the same cycle is never generated: both transactions call the exclusive method "
-             "replace, no priority is declared, the winner (currently replace) is an artefact of scheduling order")
+    ctx.note("replace+clear in the same cycle: both transactions call the exclusive method replace, no priority is "
+             "declared; the winner is read off the elaborated design (cfg cf=) and the monitor demands exactly one. "
+             "init masks include negative ones other than -1 (two's complement, init & (2^entries-1))")
 
 
 def replay(ctx: Check, body: dict):
